@@ -465,6 +465,8 @@ func checkC15(c *Ctx) {
 		c.reachRule(p, "C15.expander", "a 255-byte DST is used verbatim (not hashed)", f, nil, nil, dstIs(255), "expander.mustWrite", false)
 		c.reachRule(p, "C15.expander", "a 256-byte DST is hashed (oversize rule)", f, nil, nil, dstIs(256), "expander.mustWrite", true)
 	}
+	// Ascon: decryption fails releasing nothing (the unauthenticated plaintext is not handed back with the error)
+	c.noDataOnError(p, "C15.ascon-tag", p.Func("cipher/ascon", "Cipher", "Open"))
 	// the sponges fill the whole buffer they are given and say so: a short count with a nil error makes
 	// io.ReadFull callers (the XOF-based expander) read the "missing" tail again from further down the stream
 	for _, t := range [][2]string{{"internal/sha3", "State"}} { // (KangarooTwelve forwards to it)
